@@ -169,17 +169,23 @@ class HarnessError(Exception):
 
 class World5:
     def __init__(self, k: int, seed: int, indices: list[int] | None = None, remove_delay: float = 0,
-                 hold_last: bool = False) -> None:
+                 hold_last: bool = False, no_traffic: bool = False, custom: list[tuple] | None = None) -> None:
         """
         indices: which of CIRCUITS to use (default the first k); hold_last: the last one is planned but not built
-        (see start_last/finish_last); remove_delay: settings.remove_tunnel_delay for every node.
+        (see _start/adopt_last); remove_delay: settings.remove_tunnel_delay for every node; no_traffic: the setup
+        sends nothing (exit sockets stay unopened); custom: explicit [(origin, path, link ids)] instead of CIRCUITS.
         """
         self.k = k
         self.seed = seed
-        self.plans, self.used = make_plan(k, indices)
+        if custom is not None:
+            self.plans = [CircuitPlan(i, o, list(path), list(ids)) for i, (o, path, ids) in enumerate(custom)]
+            self.used = {n: {cid for q in self.plans for l, cid in enumerate(q.ids) if n in q.nodes[l:l + 2]}
+                         for n in ROLES}
+        else:
+            self.plans, self.used = make_plan(k, indices)
         ID_PROXY.queue = []
         ID_PROXY.fallbacks = 0
-        self.w = TunnelWorld(("c05", seed, k, indices), ROLES, community_cls=C05Community, key_offset=seed % 5,
+        self.w = TunnelWorld(("c05", seed, k, indices, custom), ROLES, community_cls=C05Community, key_offset=seed % 5,
                              remove_tunnel_delay=remove_delay)
         w = self.w
         self.addr = {n: node.address for n, node in w.nodes.items()}     # UDPv4Address, as a real endpoint reports
@@ -212,6 +218,8 @@ class World5:
             raise HarnessError(f"setup did not produce the planned tables: missing={missing} surplus={surplus} "
                                f"fallbacks={ID_PROXY.fallbacks} tables={w.tables()}")
         # one packet out and one reply on every circuit: opens every exit socket, records cells on every link
+        if no_traffic:
+            built = []
         for p in built:
             self.setup_violations += self._send(p.index, "setup")
             sock = w.ov[p.exit].exit_sockets.get(p.ids[-1])
@@ -936,7 +944,7 @@ def explore(k: int, seed: int, depth: int, jobs: int) -> tuple[Acc, int]:
 
 
 # ---------------------------------------------------------------------------------------------------------------------
-# second family: create(id in use) against circuits that are not READY (under construction / closing)
+# scenario families (each execution from scratch): first, create(id in use) against circuits that are not READY
 # ---------------------------------------------------------------------------------------------------------------------
 
 VARIANTS = ["adversary-key", "neighbour-key-and-address-spoofed"]
@@ -963,14 +971,28 @@ def family_cases() -> list[tuple]:
                     for t in range(2 * h):
                         for v in range(len(VARIANTS)):
                             cases.append(("closing", tuple(indices), victim, init, lapsed, dt, t, v))
+    import itertools
+    for indices in SIM_WORLDS:
+        for order in itertools.permutations(range(len(indices))):
+            for gap in SIM_GAPS:
+                cases.append(("simfirst", tuple(indices), tuple(order), gap))
+    for carrier in range(len(NEST_INDICES)):
+        cases.append(("nested", carrier))
+    for shape in range(len(REUSE_SHAPES)):
+        for hold in ("create", "created"):
+            # (seconds between destroy and re-use, seconds the old owner's extend was delayed): with a prompt extend
+            # X1's CreateRequestCache (10 s) is long gone when the CreatedRequestCache (60 s) frees the id; an extend
+            # that arrives 55 s late turns that around
+            for t_reuse, t_ext in ((0.0, 0.0), (30.0, 0.0), (61.0, 0.0), (0.0, 55.0), (6.0, 55.0)):
+                cases.append(("reuse", shape, hold, t_reuse, t_ext))
     return cases
 
 
 def run_family_case(seed: int, case: tuple) -> tuple[list[tuple], str, bytes, int]:
     """One execution from scratch. Returns ([(key, what)], status, abstract digest, injections)."""
-    if case[0] == "halfbuilt":
-        return _run_halfbuilt(seed, *case[1:])
-    return _run_closing(seed, *case[1:])
+    fn = {"halfbuilt": _run_halfbuilt, "closing": _run_closing, "simfirst": _run_simfirst, "nested": _run_nested,
+          "reuse": _run_reuse}[case[0]]
+    return fn(seed, *case[1:])
 
 
 def _labelled(found: list[tuple], label: str) -> list[tuple]:
@@ -1069,6 +1091,167 @@ def _run_closing(seed: int, indices: tuple, victim: int, init: str, lapsed: int,
         if not viol:
             viol += _traffic(world, label)
         return viol, "ran", world.digest(), world.injections
+    finally:
+        world.close()
+
+
+# -- third family: first packets of several circuits reach one exit while its sockets are still opening ---------------
+
+SIM_WORLDS = [[0, 3, 4], [1, 2, 5]]        # three circuits ending at X1 / at X2 (2+2+3 hops / 2+2+1 hops)
+SIM_GAPS = [0, 1, 2, 3]                    # loop iterations between two arrivals at the exit
+
+
+def _run_simfirst(seed: int, indices: tuple, order: tuple, gap: int) -> tuple[list[tuple], str, bytes, int]:
+    world = World5(len(indices), seed, list(indices), no_traffic=True)
+    try:
+        w = world.w
+        exit_addr = tuple(world.addr[world.plans[0].exit])
+        for p in world.plans:
+            world.seq += 1
+            w.send_out(p.origin, world.circ_obj[p.index], OUTSIDE, bt(MARK + b"/F/%d/%d" % (p.index, world.seq)))
+        w.loop.settle()
+        for _ in range(100):                                  # move every cell up to the last link
+            rest = [dg for dg in w.inflight if tuple(dg.dst) != exit_addr]
+            if not rest:
+                break
+            w.inflight.remove(rest[0])
+            w.deliver_datagram(rest[0])
+        for i in order:                                       # arrivals at the exit, `gap` iterations apart
+            p = world.plans[i]
+            dg = next(d for d in w.inflight if (w.cell_fields(d.data) or [None])[0] == p.ids[-1])
+            w.inflight.remove(dg)
+            w.deliver_datagram(dg, settle=False)
+            for _ in range(gap):
+                w.loop.iteration()
+        w.flush()
+        world.injections += len(order)
+        label = "SIM"
+        where = f"first packets of circuits {list(order)} reached {world.plans[0].exit} {gap} loop iterations apart"
+        viol = _labelled([(o, f"{d}: {where}") for o, d in world.check()], label)
+        for p in world.plans:
+            sock = w.ov[p.exit].exit_sockets.get(p.ids[-1])
+            world.exit_tr[p.index] = sock.transport_ipv4 if sock is not None else None
+            if world.sent[p.index] != 1 and not viol:
+                viol += _labelled([("delivery-lost", f"the first packet of circuit {p.index} left its exit "
+                                                     f"{world.sent[p.index]} times: {where}")], label)
+        if not viol:
+            viol += _traffic(world, label)
+        return viol, "ran", world.digest(), world.injections
+    finally:
+        world.close()
+
+
+# -- fourth family: an outside datagram that is itself a tunnel DATA message naming another circuit -------------------
+
+NEST_INDICES = [0, 4, 2, 1]                # O1: two circuits through R1 and one through R2; O2: one through R1
+
+
+def _run_nested(seed: int, carrier: int) -> tuple[list[tuple], str, bytes, int]:
+    world = World5(len(NEST_INDICES), seed, NEST_INDICES)
+    try:
+        w = world.w
+        viol = [(f"{o}|{l}", f"[{l}] {d}") for o, d, l in world.setup_violations]
+        a = world.plans[carrier]
+        ser = w.ov["ADV"].serializer
+        for b in world.plans:
+            hop = world.addr[b.nodes[1]]
+            for kind, src in (("first-hop-ip-other-port", (hop[0], 7777)), ("first-hop-exact-address", tuple(hop)),
+                              ("unrelated-address", ("8.8.8.8", 8))):
+                for dest in (("0.0.0.0", 0), OUTSIDE):
+                    world.seq += 1
+                    # the data really travels through circuit a: the reference expects it at a's originator, labelled a
+                    inner = bt(MARK + b"/B/%d/%d" % (a.index, world.seq))
+                    msg = world.prefix + b"\x01" + ser.pack_serializable(DataPayload(b.ids[0], dest, OUTSIDE, inner))
+                    world.exit_tr[a.index].inject(msg, src)
+                    w.flush()
+                    world.injections += 1
+                    where = (f"datagram from {src} to the exit socket of circuit {a.index} ({a.origin}, id {a.ids[0]}) "
+                             f"whose payload is a tunnel DATA message naming circuit id {b.ids[0]} "
+                             f"(circuit {b.index} of {b.origin}), inner destination {dest}")
+                    viol += _labelled([(o, f"{d}: {where}") for o, d in world.check()], f"N/{kind}")
+        if not viol:
+            viol += _traffic(world, "N")
+        return viol, "ran", world.digest(), world.injections
+    finally:
+        world.close()
+
+
+# -- fifth family: a circuit id is re-used at a node that still waits for the CREATED of the old owner's extend --------
+
+REUSE_SHAPES = [("O2", ("X1",), (1,)), ("O2", ("X1", "X2"), (1, 3))]    # the new owner's circuit; id 1 is re-used
+
+
+def _run_reuse(seed: int, shape: int, hold: str, t_reuse: float,
+               t_ext: float = 0.0) -> tuple[list[tuple], str, bytes, int]:
+    """
+    O1 -1-> X1 -2-> X2 is being built; X1 waits for X2's CREATED (held back); O1 destroys; O2 re-uses id 1 at X1.
+    t_ext: O1's extend is delayed in the network by that many seconds (O1 is patient: next_hop_timeout 100 s).
+    """
+    origin, path, ids = REUSE_SHAPES[shape]
+    world = World5(1, seed, custom=[(origin, path, ids)], hold_last=True)
+    try:
+        w = world.w
+        old = CircuitPlan(99, "O1", ["X1", "X2"], [1, 2])
+        if t_ext:
+            w.ov["O1"].settings.next_hop_timeout = 100
+        world._start(old)
+        w.loop.settle()
+        if t_ext:
+            w.deliver(0)                                    # create
+            w.deliver(0)                                    # created; O1 answers with its extend
+            if len(w.inflight) != 1 or w.kind(w.inflight[0]) != "cell:enc":
+                raise HarnessError("reuse: expected exactly the extend in flight")
+            late = w.inflight.pop(0)
+            w.run_for(t_ext)                                # pings keep the half-built circuit alive meanwhile
+            w.inflight.append(late)
+        want = ("cell:create", "X1", "X2") if hold == "create" else ("cell:created", "X2", "X1")
+        held = None
+        for _ in range(20):
+            if not w.inflight:
+                break
+            dg = w.inflight[0]
+            if (w.kind(dg), world._name(dg.src), world._name(dg.dst)) == want:
+                held = w.inflight.pop(0)
+                break
+            w.deliver(0)
+        if held is None or w.inflight:
+            raise HarnessError(f"reuse: could not hold back {want}")
+        world._restore_candidates()
+        w.nodes["O1"].run(w.ov["O1"].remove_circuit, 1, "c05", destroy=1)       # correctly signed destroy to X1
+        w.flush()
+        if world.holds("X1", 1) or world.holds("O1", 1):
+            raise HarnessError(f"reuse: the old circuit was not torn down: {w.tables()}")
+        if t_reuse:
+            w.run_for(t_reuse)
+        world.extras = {("X2", "exit_sockets", 2)}      # X2 may have joined the old circuit (removed for inactivity later)
+        p = world.plans[0]
+        c = world._start(p)                             # O2 asks X1 for a circuit under id 1
+        w.flush()
+        accepted = c.state == CIRCUIT_STATE_READY
+        w.inflight.append(held)                         # the late create/created of the old circuit's extend arrives
+        w.flush()
+        world.injections += 3
+        label = f"R/{'late' if t_ext else 'prompt'}-extend"
+        where = (f"O1 built 1->X1->X2 ({f'its extend arrived {t_ext:.0f} s late, ' if t_ext else ''}up to X1's {hold} "
+                 f"for X2, held back), destroyed it, {t_reuse:.0f} s later "
+                 f"{origin}->{'->'.join(path)} asked X1 for id 1 ({'accepted' if accepted else 'refused'}), then the "
+                 f"held {hold} was delivered")
+        viol: list[tuple] = []
+        if accepted:
+            found = world.adopt_last(c)
+            found = [(o, d) for o, d in found if "X2.exit_sockets[2]" not in d]
+            world.live[0] = not found
+            viol += _labelled([(o, f"{d}: {where}") for o, d in found], label)
+            if not found:
+                world.extras = {("X2", "exit_sockets", 2)}
+                viol += _traffic(world, label)
+        else:
+            ID_PROXY.queue = []
+            world._restore_candidates()
+            view = [e for e in world.table_view() if e != ("X2", "exit_sockets", 2) and e[1] != "circuits"]
+            viol += _labelled([(f"table-added:{e[1]}", f"{e[0]}.{e[1]}[{e[2]}] exists although the request was "
+                                                       f"refused: {where}") for e in view], label)
+        return viol, "accepted" if accepted else "refused", world.digest(), world.injections
     finally:
         world.close()
 
@@ -1187,14 +1370,22 @@ def _run(ctx: core.Ctx) -> core.Report:
         "exhaustive": True,
         "injections_each_followed_by_oracle": injections,
         "worlds": per_world,
-        "not_ready_family": {"cases_enumerated": fam["cases"], "by_outcome": dict(sorted(fam["status"].items())),
-                             "what": "create(id in use) by the adversary (2 variants) at every node that routes the id, "
-                                     "(a) after j = 0..n-1 delivered handshake datagrams of a 1/2/3-hop build, with 0 "
-                                     "or 2 READY circuits around, then the rest of the handshake is delivered and the "
-                                     "circuit must be READY, planned tables only, traffic on every circuit delivered; "
-                                     "(b) 0 s / 2.5 s after a teardown by originator or exit with remove_tunnel_delay "
-                                     "= 5 (circuit CLOSING), 0 s or 61 s after the build; n/a = that node does not "
-                                     "hold the id at that moment"},
+        "scenario_families": {
+            "cases_enumerated": fam["cases"], "by_outcome": dict(sorted(fam["status"].items())),
+            "halfbuilt/closing": "create(id in use) by the adversary (2 variants) at every node that routes the id, (a) "
+                                 "after j = 0..n-1 delivered handshake datagrams of a 1/2/3-hop build with 0 or 2 READY "
+                                 "circuits around, then the handshake completes: READY, planned tables only, traffic "
+                                 "delivered; (b) 0 s / 2.5 s after a teardown by originator or exit with "
+                                 "remove_tunnel_delay = 5 (CLOSING), 0 s or 61 s after the build; n/a = that node does "
+                                 "not hold the id at that moment",
+            "simfirst": "three circuits ending at one exit send their first packet; the cells reach the exit in every "
+                        "order, 0..3 loop iterations apart, before any exit socket is open",
+            "nested": "a datagram arrives from outside on circuit A's exit socket whose payload is a tunnel DATA "
+                      "message naming the first id of every circuit (own and others), from the named circuit's first "
+                      "hop (exact address / same IP other port) and from an unrelated address",
+            "reuse": "O1 -1-> X1 -2-> X2 is built up to X1's create for X2 or X2's created (held back), O1 destroys "
+                     "it, O2 asks X1 for id 1 (1-hop and 2-hop) 0/30/61 s later, or 0/6 s later when O1's extend had "
+                     "arrived 55 s late; then the held datagram is delivered"},
         "bounds": [{"circuits": k, "depth": d} for k, d in bounds(ctx)],
         "state_definition": "digest of (routing-table key sets per node with originator circuit state, live/dying "
                             "flag per circuit, forward/reply delivery counts per circuit, open exit sockets, number "
